@@ -548,6 +548,57 @@ func runC08(w *World, r *Report) {
 		r.Check(srcErrReturned, "C08.convert-skip", "convert reader returns source errors unchanged", rv.Pos(), "return t, err of the source", "errors/EOF of the source are not passed through")
 	}
 
+	// ---- a converter's view of a stream item: a nil interface item has lost its static type when it comes back out of
+	// recvAny; a plain assertion `item.(T)` to a type parameter / interface type panics on it
+	r.Rule("C08.convert-item-assert", "in every converter handed to StreamReaderWithConvert / newStreamReaderWithConvert, a type assertion of the item to a type parameter or interface type uses the comma-ok form (a nil interface item is a legal item; the plain form panics on it)", 2)
+	{
+		conv := map[*ssa.Function]bool{w.Fn("schema", "StreamReaderWithConvert"): true, w.Fn("schema", "newStreamReaderWithConvert"): true}
+		seen := map[*ssa.Function]bool{}
+		for _, fn := range w.RepoFuncs("") {
+			instrs(fn, func(in ssa.Instruction) {
+				c, ok := in.(ssa.CallInstruction)
+				if !ok {
+					return
+				}
+				sc := staticCallee(c)
+				if sc == nil || !conv[origin(sc)] || len(c.Common().Args) < 2 {
+					return
+				}
+				var lit *ssa.Function
+				switch a := c.Common().Args[1].(type) {
+				case *ssa.MakeClosure:
+					lit, _ = a.Fn.(*ssa.Function)
+				case *ssa.Function:
+					lit = a
+				}
+				if lit == nil || len(lit.Params) == 0 || seen[lit] {
+					return
+				}
+				seen[lit] = true
+				item := lit.Params[0]
+				if _, isIface := item.Type().Underlying().(*types.Interface); !isIface {
+					if _, isTP := item.Type().(*types.TypeParam); !isTP {
+						return
+					}
+				}
+				k := 0
+				instrs(lit, func(in2 ssa.Instruction) {
+					ta, ok := in2.(*ssa.TypeAssert)
+					if !ok || ta.X != ssa.Value(item) {
+						return
+					}
+					_, toTP := ta.AssertedType.(*types.TypeParam)
+					_, toIface := ta.AssertedType.Underlying().(*types.Interface)
+					if !toTP && !toIface {
+						return
+					}
+					k++
+					r.Check(ta.CommaOk, "C08.convert-item-assert", fmt.Sprintf("item assertion #%d in converter %s", k, w.fname(lit)), ta.Pos(), "comma-ok form: a nil interface item yields the zero value", "plain assertion of a stream item to a type parameter / interface: a nil interface item (legal, delivered by unconverted readers, copies and merges) makes Recv on the converted stream panic")
+				})
+			})
+		}
+	}
+
 	// ---- array-backed readers share their backing array with every copy: nobody appends to it in place
 	r.Rule("C08.array-alias", "no append on a slice derived from arrayReader.arr (the copies of an array-backed stream share that array): appends start from a fresh slice", 1)
 	arrayAliasCheck(w, r, "C08.array-alias")
